@@ -39,7 +39,7 @@ use ckb_types::core::{
     BlockBuilder, BlockView, Capacity, EpochNumberWithFraction, TransactionBuilder, TransactionView,
     UncleBlockView, capacity_bytes,
 };
-use ckb_types::packed::{self, Byte32, CellInput, CellOutput, OutPoint, ProposalShortId};
+use ckb_types::packed::{self, Byte32, CellDep, CellInput, CellOutput, OutPoint, ProposalShortId, Script};
 use ckb_types::prelude::*;
 use ckb_types::utilities::DIFF_TWO;
 use ckb_types::utilities::merkle_mountain_range::ChainRootMMR;
@@ -68,6 +68,88 @@ struct CaseCfg {
     /// epoch number of the genesis epoch (header field and `genesis_epoch_ext`): a history that
     /// starts `k` epochs below the activation epoch crosses the boundary within a few blocks
     genesis_epoch: u64,
+    /// Nervos-DAO-typed deposit cells and transfers between them are generated (needs a roomy cycle limit)
+    dao: bool,
+    /// `starting_block_limiting_dao_withdrawing_lock`
+    dao_start: u64,
+}
+
+/// the type script of genesis cellbase output 2 (`OUTPUT_INDEX_DAO`): its hash is the consensus'
+/// `dao_type_hash`; the cell's data is the always-success binary, so a cell typed
+/// `{code_hash: dao_type_hash, hash_type: type}` is "Nervos DAO typed" for every verifier and its type
+/// script always succeeds
+fn dao_marker_script() -> Script {
+    Script::new_builder().code_hash(h256!("0xda0").pack()).hash_type(packed::Byte::new(0)).args(Bytes::from_static(b"dao").pack()).build()
+}
+
+fn dao_type_script() -> Script {
+    Script::new_builder().code_hash(dao_marker_script().calc_script_hash()).hash_type(packed::Byte::new(1)).build()
+}
+
+/// genesis transaction 0: a cellbase-shaped transaction with three outputs, the third one the "DAO code" cell
+fn genesis_tx0() -> TransactionView {
+    let (_, as_data, lock) = always_success_cell();
+    let plain = CellOutput::new_builder().capacity(capacity_bytes!(1_000)).lock(lock.clone()).build();
+    TransactionBuilder::default()
+        .input(CellInput::new(OutPoint::null(), 0))
+        // the reward calculator reads the genesis cellbase witness as a `CellbaseWitness` (target lock
+        // of the first blocks)
+        .witness(lock.clone().into_witness())
+        .output(plain.clone())
+        .output_data(Bytes::new())
+        .output(plain)
+        .output_data(Bytes::new())
+        .output(CellOutput::new_builder().capacity(capacity_bytes!(100_000)).lock(lock.clone()).type_(Some(dao_marker_script()).pack()).build())
+        .output_data(as_data.clone())
+        .build()
+}
+
+#[derive(Clone, Debug)]
+struct DaoCell {
+    op: OutPoint,
+    cap: u64,
+    /// length of the lock script's args (the lock's total size moves with it)
+    args_len: usize,
+    /// number of the block that committed the cell
+    created: u64,
+}
+
+/// spendable plain cells of the genesis block (transactions 0 and 1 are the DAO-code and always-success-code cells)
+fn plain_genesis_cells(consensus: &Consensus) -> Vec<(OutPoint, u64)> {
+    consensus
+        .genesis_block()
+        .transactions()
+        .iter()
+        .skip(2)
+        .filter(|tx| tx.outputs().get(0).unwrap().type_().is_none())
+        .map(|tx| (OutPoint::new(tx.hash(), 0), Unpack::<Capacity>::unpack(&tx.outputs().get(0).unwrap().capacity()).as_u64()))
+        .collect()
+}
+
+fn dao_genesis_cells(consensus: &Consensus) -> Vec<DaoCell> {
+    consensus
+        .genesis_block()
+        .transactions()
+        .iter()
+        .skip(2)
+        .filter(|tx| tx.outputs().get(0).unwrap().type_().is_some())
+        .map(|tx| DaoCell { op: OutPoint::new(tx.hash(), 0), cap: Unpack::<Capacity>::unpack(&tx.outputs().get(0).unwrap().capacity()).as_u64(), args_len: 0, created: 0 })
+        .collect()
+}
+
+/// a transfer of one DAO-typed deposit cell into a DAO-typed cell whose lock has `out_args` bytes of args
+/// (data all zero on both sides: what `DaoScriptSizeVerifier` calls a deposit → withdrawing pair)
+fn dao_transfer(consensus: &Consensus, cell: &DaoCell, out_args: usize, salt: u64) -> TransactionView {
+    let (_, _, script) = always_success_cell();
+    let lock = script.clone().as_builder().args(Bytes::from(vec![7u8; out_args]).pack()).build();
+    let code = OutPoint::new(consensus.genesis_block().transactions()[0].hash(), 2);
+    TransactionBuilder::default()
+        .cell_dep(always_success_dep())
+        .cell_dep(CellDep::new_builder().out_point(code).build())
+        .input(CellInput::new(cell.op.clone(), 0))
+        .output(CellOutput::new_builder().capacity(Capacity::shannons(cell.cap - 1000 - salt)).lock(lock).type_(Some(dao_type_script()).pack()).build())
+        .output_data(Bytes::from(vec![0u8; 8 + (salt % 5) as usize]))
+        .build()
 }
 
 fn act_epoch_of(chain: &str) -> u64 {
@@ -79,7 +161,11 @@ fn act_epoch_of(chain: &str) -> u64 {
 }
 
 /// the three activation regimes of a case (round 6)
-fn with_regime(mut cc: CaseCfg, regime: u64) -> CaseCfg {
+fn with_regime(mut cc: CaseCfg, regime: u64, cyc: u64, seed: u64) -> CaseCfg {
+    if cc.defaults || cc.max_cycles >= cyc * 6 {
+        cc.dao = true;
+        cc.dao_start = [0u64, 0, 5, 9][(seed % 4) as usize];
+    }
     match regime {
         // never active within the case: the early history of a public chain
         1 => {
@@ -104,8 +190,9 @@ fn with_regime(mut cc: CaseCfg, regime: u64) -> CaseCfg {
 
 fn consensus_for(cc: &CaseCfg, genesis_cells: u64) -> Consensus {
     let (_, _, always_success_script) = always_success_cell();
+    let tx0 = genesis_tx0();
     let tx = create_always_success_tx();
-    let transactions: Vec<TransactionView> = (0..genesis_cells)
+    let mut transactions: Vec<TransactionView> = (0..genesis_cells)
         .map(|i| {
             TransactionBuilder::default()
                 .input(CellInput::new(OutPoint::null(), 0))
@@ -114,7 +201,19 @@ fn consensus_for(cc: &CaseCfg, genesis_cells: u64) -> Consensus {
                 .build()
         })
         .collect();
-    let mut all: Vec<&TransactionView> = vec![&tx];
+    if cc.dao {
+        // Nervos-DAO-typed deposit cells (data all zero; the data length tells them apart)
+        for i in 0..8usize {
+            transactions.push(
+                TransactionBuilder::default()
+                    .input(CellInput::new(OutPoint::null(), 0))
+                    .output(CellOutput::new_builder().capacity(capacity_bytes!(50_000)).lock(always_success_script.clone()).type_(Some(dao_type_script()).pack()).build())
+                    .output_data(Bytes::from(vec![0u8; 8 + i]))
+                    .build(),
+            );
+        }
+    }
+    let mut all: Vec<&TransactionView> = vec![&tx0, &tx];
     all.extend(transactions.iter());
     let dao = genesis_dao_data(all).unwrap();
     let genesis_block = BlockBuilder::default()
@@ -126,6 +225,7 @@ fn consensus_for(cc: &CaseCfg, genesis_cells: u64) -> Consensus {
             EpochNumberWithFraction::new(cc.genesis_epoch, 0, cc.epoch_len)
         })
         .timestamp(1_000_000u64)
+        .transaction(tx0)
         .transaction(tx)
         .transactions(transactions)
         .build();
@@ -144,6 +244,7 @@ fn consensus_for(cc: &CaseCfg, genesis_cells: u64) -> Consensus {
     }
     let mut b = ConsensusBuilder::new(genesis_block, genesis_epoch_ext)
         .id(cc.chain.to_owned())
+        .starting_block_limiting_dao_withdrawing_lock(cc.dao_start)
         .initial_primary_epoch_reward(epoch_reward)
         .epoch_duration_target(duration_target)
         .permanent_difficulty_in_dummy(true)
@@ -335,6 +436,32 @@ fn describe(ids: &mut Ids, consensus: &Consensus, db: Option<&ChainDB>, cyc: u64
                 }
                 Err(_) => None,
             };
+            // what DaoScriptSizeVerifier reads: (input i, output i) pairs, both Nervos-DAO typed (decided
+            // here on the raw fields), input data all zero; lock sizes and the deposit's block number
+            if let Some(rtxs) = &rtxs {
+                let dth = consensus.dao_type_hash();
+                let is_dao = |o: &CellOutput| o.type_().to_opt().map(|t| Into::<u8>::into(t.hash_type()) == 1 && t.code_hash() == dth).unwrap_or(false);
+                let mut pairs: Vec<String> = vec![];
+                for rtx in rtxs.iter().skip(1) {
+                    for (meta, out) in rtx.resolved_inputs.iter().zip(rtx.transaction.outputs().into_iter()) {
+                        if !(is_dao(&meta.cell_output) && is_dao(&out)) {
+                            continue;
+                        }
+                        let data = match meta.mem_cell_data.clone().or_else(|| db.get_cell_data(&meta.out_point).map(|(d, _)| d)) {
+                            Some(d) => d,
+                            None => continue,
+                        };
+                        if data.iter().any(|b| *b != 0) {
+                            continue;
+                        }
+                        let created = meta.transaction_info.as_ref().map(|i| i.block_number).unwrap_or(u64::MAX);
+                        pairs.push(format!("{}.{}.{}", meta.cell_output.lock().total_size(), out.lock().total_size(), created));
+                    }
+                }
+                if !pairs.is_empty() {
+                    s += &format!(" dls={}", pairs.join(";"));
+                }
+            }
             match &rtxs {
                 Some(rtxs) if !rtxs.is_empty() => {
                     let dao = DaoCalculator::new(consensus, &loader).dao_field(rtxs.iter().map(AsRef::as_ref), &parent_header);
@@ -361,13 +488,18 @@ fn describe(ids: &mut Ids, consensus: &Consensus, db: Option<&ChainDB>, cyc: u64
         }
     }
     // script execution is an oracle: every non-cellbase transaction spends always-success cells
-    s += &format!(" txsok=1 cycles={}", cyc * (txs.len().saturating_sub(1)) as u64);
+    // one script group per transaction (the input lock), one more when its cells carry a type script
+    let groups: u64 = txs.iter().skip(1).map(|t| 1 + t.outputs().into_iter().any(|o| o.type_().is_some()) as u64).sum();
+    s += &format!(" txsok=1 cycles={}", cyc * groups);
     s
 }
 
 /// canonical error class of a real verification error (by the error's variant names)
 fn classify(dbg: &str) -> &'static str {
     const TABLE: &[(&str, &str)] = &[
+        // `TransactionError::DaoLockSizeMismatch` (the Debug of `ckb_error::Error` shows the Display text)
+        ("does not match the withdrawing cell", "dao-lock-size"),
+        ("DaoLockSizeMismatch", "dao-lock-size"),
         ("InvalidNonce", "pow"),
         ("UnknownParent", "badparent"),
         ("InvalidParent", "badparent"),
@@ -547,6 +679,10 @@ struct Case<'a> {
     cells: Vec<(OutPoint, u64)>,
     /// proposed, not yet committed: (tx, height of the proposing block)
     pending: Vec<(TransactionView, u64)>,
+    /// unspent Nervos-DAO-typed deposit cells
+    dao_cells: Vec<DaoCell>,
+    /// DAO transfers in flight: tx hash -> (input cell, args length of the output lock)
+    dao_txs: HashMap<Byte32, (DaoCell, usize)>,
     salt: u64,
     rules_hit: HashSet<String>,
     /// scratch directory of the case
@@ -933,7 +1069,7 @@ fn pad_cellbase_witness(v: &BlockView, extra: usize) -> BlockView {
 fn pick_cfg(rng: &mut Rng, cyc: u64) -> CaseCfg {
     if rng.chance(1, 5) {
         // all consensus defaults (median 37, window 2..10, proposals limit 1500 …); epoch length stays short
-        return CaseCfg { epoch_len: rng.range(5, 9), window: (2, 10), median: 37, max_props: 1500, max_bytes: 597_000, max_cycles: 3_500_000_000, defaults: true, chain: "ckb_dev", genesis_epoch: 0 };
+        return CaseCfg { epoch_len: rng.range(5, 9), window: (2, 10), median: 37, max_props: 1500, max_bytes: 597_000, max_cycles: 3_500_000_000, defaults: true, chain: "ckb_dev", genesis_epoch: 0, dao: false, dao_start: 10_000_000 };
     }
     let close = rng.range(1, 3);
     let far = close + rng.range(1, 4);
@@ -947,17 +1083,19 @@ fn pick_cfg(rng: &mut Rng, cyc: u64) -> CaseCfg {
         defaults: false,
         chain: "ckb_dev",
         genesis_epoch: 0,
+        dao: false,
+        dao_start: 10_000_000,
     }
 }
 
 /// cycles of one always-success input (measured once on a throw-away node; script execution is an oracle)
 fn measure_cycles(base: &Path) -> u64 {
-    let cc = CaseCfg { epoch_len: 10, window: (1, 3), median: 3, max_props: 10, max_bytes: 100_000, max_cycles: 1_000_000_000, defaults: false, chain: "ckb_dev", genesis_epoch: 0 };
+    let cc = CaseCfg { epoch_len: 10, window: (1, 3), median: 3, max_props: 10, max_bytes: 100_000, max_cycles: 1_000_000_000, defaults: false, chain: "ckb_dev", genesis_epoch: 0, dao: false, dao_start: 10_000_000 };
     let consensus = consensus_for(&cc, 2);
     let ncfg = NodeCfg::default();
     let node = Node::start(&base.join("probe-node"), consensus.clone(), &ncfg);
     let mut b = ChainBuilder::new(consensus.clone(), &base.join("probe-builder"));
-    let cells = genesis_cells(&consensus);
+    let cells = plain_genesis_cells(&consensus);
     let tx = spend_tx(&cells[0..1], 1, 100, 1);
     let b1 = b.build(&consensus.genesis_hash(), &BlockSpec { proposals: vec![tx.proposal_short_id()], salt: 1, ..Default::default() });
     let b2 = b.build(&b1.hash(), &BlockSpec { txs: vec![tx.clone()], salt: 2, ..Default::default() });
@@ -986,13 +1124,15 @@ fn pick_cfg_reorg(rng: &mut Rng, cyc: u64) -> CaseCfg {
         defaults: false,
         chain: "ckb_dev",
         genesis_epoch: 0,
+        dao: false,
+        dao_start: 10_000_000,
     }
 }
 
 fn run_case(out: &mut Out, seed: u64, base: &Path, cyc: u64, steps: usize, reorg: bool, regime: u64) {
     let mut rng = Rng::new(seed);
     let cc = if reorg { pick_cfg_reorg(&mut rng, cyc) } else { pick_cfg(&mut rng, cyc) };
-    let cc = with_regime(cc, regime);
+    let cc = with_regime(cc, regime, cyc, seed);
     let tag = if regime == 0 { String::new() } else { format!(" regime={}", regime) };
     out.begin_case(&if reorg { format!("seed={} reorg=1{}", seed, tag) } else { format!("seed={}{}", seed, tag) });
     let t_case = std::time::Instant::now();
@@ -1002,7 +1142,7 @@ fn run_case(out: &mut Out, seed: u64, base: &Path, cyc: u64, steps: usize, reorg
     let _ = std::fs::remove_dir_all(&dir);
     let node = Node::start(&dir.join("node"), consensus.clone(), &ncfg);
     let builder = ChainBuilder::new(consensus.clone(), &dir.join("builder"));
-    let cells = genesis_cells(&consensus);
+    let cells = plain_genesis_cells(&consensus);
     let mut c = Case {
         inplace: HashSet::new(),
         included: HashSet::new(),
@@ -1027,6 +1167,8 @@ fn run_case(out: &mut Out, seed: u64, base: &Path, cyc: u64, steps: usize, reorg
         pool: vec![],
         cells,
         pending: vec![],
+        dao_cells: if cc.dao { dao_genesis_cells(&consensus) } else { vec![] },
+        dao_txs: HashMap::new(),
         salt: 0,
         rules_hit: HashSet::new(),
         dir: dir.clone(),
@@ -1038,7 +1180,10 @@ fn run_case(out: &mut Out, seed: u64, base: &Path, cyc: u64, steps: usize, reorg
     c.builder.max_branch_stores = 4;
     // the consensus id goes to the model, which selects the rfc0044 activation epoch from the
     // constants regenerated from the source and decides per block (parent's epoch) whether it is active
-    let chain = if regime == 0 { String::new() } else { format!(" chain={}", consensus.id) };
+    let mut chain = if regime == 0 { String::new() } else { format!(" chain={}", consensus.id) };
+    if cc.dao {
+        chain += &format!(" daostart={}", cc.dao_start);
+    }
     if cc.defaults {
         c.out.op(&format!("cfg{}", chain), "ok");
     } else {
@@ -1132,6 +1277,19 @@ fn fresh_tx(c: &mut Case) -> Option<TransactionView> {
     Some(spend_tx(&[cell], 1, 1000 + salt, salt))
 }
 
+/// a transfer of a DAO-typed deposit cell: the output lock has the same size, or a few bytes more
+fn fresh_dao_tx(c: &mut Case) -> Option<TransactionView> {
+    if c.dao_cells.is_empty() {
+        return None;
+    }
+    let cell = c.dao_cells.remove(0);
+    let salt = c.next_salt();
+    let out_args = if c.rng.chance(1, 2) { cell.args_len } else { cell.args_len + 1 + c.rng.below(3) as usize };
+    let tx = dao_transfer(&c.consensus, &cell, out_args, salt);
+    c.dao_txs.insert(tx.hash(), (cell, out_args));
+    Some(tx)
+}
+
 /// a well-formed spend that is never meant to be committed (the cell stays available)
 fn scratch_tx(c: &mut Case) -> Option<TransactionView> {
     let cell = c.cells.first()?.clone();
@@ -1199,18 +1357,46 @@ fn step(c: &mut Case) {
     // keep the block under the cycle limit of the case; the overflow is used for the limit+1 probe
     let room = if c.cc.defaults { 4 } else { (c.cc.max_cycles / c.cyc) as usize };
     let mut overflow: Option<TransactionView> = None;
-    while commit_now.len() > room {
+    // a DAO transfer runs two script groups (lock + type)
+    let weight = |c: &Case, v: &Vec<(TransactionView, u64)>| -> usize { v.iter().map(|(t, _)| if c.dao_txs.contains_key(&t.hash()) { 2 } else { 1 }).sum() };
+    while weight(c, &commit_now) > room {
         let x = commit_now.pop().unwrap();
         overflow = Some(x.0.clone());
         if h - x.1 < wf { c.pending.push(x) } else { expired.push(x) }
     }
+    // round 6, the second rfc0044-gated rule: once the parent's epoch is at the activation epoch a DAO
+    // transfer whose lock size changes (deposit committed at or above the limiting start block) makes
+    // the block invalid; before that it is an ordinary transaction
+    let parent_active = ph.epoch().number() >= c.act_epoch;
+    let mut dao_refused: Vec<TransactionView> = vec![];
+    {
+        let mut kept = vec![];
+        for (tx, hp) in commit_now.drain(..) {
+            match c.dao_txs.get(&tx.hash()) {
+                Some((cell, out)) if *out != cell.args_len && cell.created >= c.cc.dao_start && parent_active => {
+                    // the deposit stays unspent
+                    c.dao_cells.push(cell.clone());
+                    dao_refused.push(tx);
+                }
+                Some((cell, out)) if *out != cell.args_len => {
+                    c.out.count(if parent_active { "valid:dao-lock-size-change(deposit-below-limiting-start)" } else { "valid:dao-lock-size-change(before-activation)" });
+                    c.rules_hit.insert("dao-lock-size-gate:Valid".into());
+                    kept.push((tx, hp));
+                }
+                _ => kept.push((tx, hp)),
+            }
+        }
+        commit_now = kept;
+    }
+    let full = weight(c, &commit_now) == room;
     spec.txs = commit_now.iter().map(|(t, _)| t.clone()).collect();
     // proposals
     let n_prop = c.rng.below(4) as usize;
     let mut new_props = vec![];
     for _ in 0..n_prop {
         if (spec.proposals.len() as u64) < c.consensus.max_block_proposals_limit() {
-            if let Some(tx) = fresh_tx(c) {
+            let tx = if c.cc.dao && c.rng.chance(1, 3) { fresh_dao_tx(c).or_else(|| fresh_tx(c)) } else { fresh_tx(c) };
+            if let Some(tx) = tx {
                 spec.proposals.push(tx.proposal_short_id());
                 new_props.push(tx);
             }
@@ -1268,7 +1454,7 @@ fn step(c: &mut Case) {
     // built first and never attached to the builder's store
     let mut over_block = None;
     if let Some(tx) = overflow {
-        if !c.cc.defaults && commit_now.len() == room {
+        if !c.cc.defaults && full {
             let s = c.next_salt();
             let mut ospec = spec.clone();
             ospec.salt = s;
@@ -1310,6 +1496,13 @@ fn step(c: &mut Case) {
     for (tx, hp) in expired.iter().filter(|(_, hp)| *hp != u64::MAX && h - hp == wf + 1).take(1) {
         let _ = hp;
         mutants.push((with_txs(&v, { let mut t = v.transactions(); t.push(tx.clone()); t }), "commit-w_far+1", now));
+    }
+    for tx in dao_refused.iter() {
+        // the DAO field of the header recomputed for the larger body: the only broken rule is the lock size
+        if let Some(m) = fix_dao(c, with_txs(&v, { let mut t = v.transactions(); t.push(tx.clone()); t })) {
+            mutants.push((m, "dao-lock-size-mismatch(active)", now));
+            c.rules_hit.insert("dao-lock-size-gate:Invalid".into());
+        }
     }
     for (_, hp) in commit_now.iter() {
         if h - hp == wc {
@@ -1357,7 +1550,10 @@ fn step(c: &mut Case) {
     // bookkeeping
     for (tx, _) in commit_now {
         let cap: u64 = tx.outputs().get(0).unwrap().capacity().unpack();
-        c.cells.push((OutPoint::new(tx.hash(), 0), cap));
+        match c.dao_txs.remove(&tx.hash()) {
+            Some((_, out_args)) => c.dao_cells.push(DaoCell { op: OutPoint::new(tx.hash(), 0), cap, args_len: out_args, created: h }),
+            None => c.cells.push((OutPoint::new(tx.hash(), 0), cap)),
+        }
     }
     for tx in new_props {
         c.pending.push((tx, h));
@@ -2137,6 +2333,7 @@ fn resync(c: &mut Case, fork_height: u64) {
     c.pool.retain(|p| !main.contains(&p.hash()) && !included.contains(&p.hash()));
     // outputs of transactions that are not committed on this chain do not exist here
     c.cells.retain(|(op, _)| committed.contains(&op.tx_hash()));
+    c.dao_cells.retain(|d| committed.contains(&d.op.tx_hash()));
     // proposals made above the fork point belong to whichever branch made them: forget them
     c.pending.retain(|(_, hp)| *hp == u64::MAX || *hp <= fork_height);
 }
@@ -2564,7 +2761,7 @@ fn resubmit(c: &mut Case) {
 /// body under an already stored header hash — counted in the histogram, never an oracle failure
 fn run_scenario(out: &mut Out, name: &str, base: &Path) {
     out.begin_case(&format!("scenario={}", name));
-    let cc = CaseCfg { epoch_len: 10, window: (2, 10), median: 37, max_props: 1500, max_bytes: 597_000, max_cycles: 3_500_000_000, defaults: true, chain: "ckb_dev", genesis_epoch: 0 };
+    let cc = CaseCfg { epoch_len: 10, window: (2, 10), median: 37, max_props: 1500, max_bytes: 597_000, max_cycles: 3_500_000_000, defaults: true, chain: "ckb_dev", genesis_epoch: 0, dao: false, dao_start: 10_000_000 };
     let consensus = consensus_for(&cc, 2);
     let dir = base.join(format!("scenario-{}", name));
     let _ = std::fs::remove_dir_all(&dir);
